@@ -506,10 +506,96 @@ def c11h():
 			// or was followed by skipping the test case''')
 
 
+def c13d():
+    sub("engine.go", '''		if failed, ok := t.resetFailed(); ok && (err == nil || err.isInvalidData()) {
+			// non-fatal failure was signalled by a cleanup function, or was followed by skipping the test case
+			err = &testError{data: failed, traceback: lateFailureTraceback}
+		}
+''', '''		err = t.finish(err)
+''')
+    sub("engine.go", '''// resetFailed clears the non-fatal failure of the current test case (if any) and returns it.
+func (t *T) resetFailed() (stopTest, bool) {
+	t.mu.Lock()
+	defer t.mu.Unlock()
+
+	failed, isFailed := t.failed, t.isFailed
+	t.failed, t.isFailed = "", false
+
+	return failed, isFailed
+}
+''', '''// finish ends the current test case: it clears the non-fatal failure flag (T can be reused for the
+// next test case) and returns the final outcome. err is the panic that ended the test case or one of
+// its cleanup functions, if any; it says more than a failure without a stack trace, so the pending
+// non-fatal failure is only reported when there was no panic.
+func (t *T) finish(err *testError) *testError {
+	t.mu.Lock()
+	defer t.mu.Unlock()
+
+	failed, isFailed := t.failed, t.isFailed
+	t.failed, t.isFailed = "", false
+
+	if isFailed && err == nil {
+		// non-fatal failure was signalled by a cleanup function
+		return &testError{data: failed, traceback: lateFailureTraceback}
+	}
+
+	return err
+}
+''')
+
+
+def c12g():
+    s = rd("utils.go")
+    a = s.index("func genUintNUnbiased(s bitStream, max uint64) uint64 {")
+    b = s.index("func genUintN(s bitStream, max uint64, bias bool)")
+    s = s[:a] + '''// drawUintN draws bitlen-wide values until one of them is not greater than max. Every attempt is
+// recorded as a group of its own; groups of rejected attempts are marked to be discarded by prune().
+// Draws wider than 64 bits stand for "overflow to max" and are recorded as all-ones blocks.
+func drawUintN(s bitStream, bitlen int, max uint64) uint64 {
+	for {
+		i := s.beginGroup(intBitsLabel, true)
+		u := s.drawBits(bitlen)
+		ok := (bitlen > 64 && u == math.MaxUint64) || (bitlen <= 64 && u <= max)
+		s.endGroup(i, !ok)
+		if ok {
+			return u
+		}
+	}
+}
+
+func genUintNUnbiased(s bitStream, max uint64) uint64 {
+	return drawUintN(s, bits.Len64(max), max)
+}
+
+func genUintNBiased(s bitStream, max uint64) (uint64, bool, bool) {
+	bitlen := bits.Len64(max)
+	i := s.beginGroup(biasLabel, false)
+	m := math.Max(8, (float64(bitlen)+48)/7)
+	n := genGeom(s, 1/(m+1)) + 1
+	s.endGroup(i, false)
+
+	if int(n) < bitlen {
+		bitlen = int(n)
+	} else if int(n) > bitlen && int(n) >= 64-(16-int(m))*4 {
+		bitlen = 65
+	}
+
+	u := drawUintN(s, bitlen, max)
+	if bitlen > 64 {
+		u = max
+	}
+
+	return u, u == 0 && n == 1, u == max && bitlen >= int(n)
+}
+
+''' + s[b:]
+    wr("utils.go", s)
+
+
 PORTS = {
     "C02a": swap_defers, "C14g": swap_defers, "C09e": c09e, "C10a": c10a, "C10d": c10d, "C10e": c10e, "C11c": c11c,
     "C11f": lambda: pool("innerTs", False), "C15g": lambda: pool("scopedTs", True), "C13f": c13f, "C03h": c03h,
-    "C14b": c14b, "C14c": c14c, "C15d": c15d, "C02g": c02g, "C02h": c02h, "C10g": c10g, "C11h": c11h,
+    "C14b": c14b, "C14c": c14c, "C15d": c15d, "C02g": c02g, "C02h": c02h, "C10g": c10g, "C11h": c11h, "C13d": c13d, "C12g": c12g,
 }
 
 
